@@ -347,3 +347,53 @@ Fixpoint guards_diff (a b : list (string * list string)) {struct a} : list strin
 
 Lemma gen_guards_frozen : guards_diff gen_guards expected_guards = [].
 Proof. vm_compute. reflexivity. Qed.
+
+(** ** Long-lived objects hold configuration only
+
+    The credential objects are used for many calls (and from many goroutines).
+    The models are functions of the configuration and the call's arguments; that
+    is sound only if no call leaves anything behind in the object.  Decided on
+    what the translator extracts: every field of every such type has one of the
+    configuration types below (a key, a duration, a clock or callback, a card /
+    signer / verifier / store / table handle: nothing a method could
+    accumulate results in, such as a hash state, a map or a cache), and no
+    method assigns through its receiver, the two setters of [Roles] apart.
+    Cred/UsageProofs.v ([history_pointwise]) is the consequence: the result of a
+    call in any history is the result of that call alone. *)
+Definition config_types : list string :=
+  [ "[]byte"; "string"; "time.Duration"; "func() time.Time";
+    "*Signer"; "*signer.Signer"; "*signer.Sessions"; "*rsa.PublicKey"; "*Header";
+    "Card"; "identity.Card"; "Signer"; "SimpleStore"; "jwt.Verifier"; "signin.Tokener";
+    "func(user string) (interface{}, int, error)"; "io.Reader"; "*pisces.KV" ].
+
+Definition config_setters : list string :=
+  [ "roles.Roles.SetPassCodeExpiry"; "roles.Roles.SetHostDomain" ].
+
+Definition expected_objects : list string :=
+  [ "signer.Signer"; "signer.Sessions"; "signer.TimeSigner"; "signer.RSATimeSigner"; "jwt.HS256";
+    "identity.jwtVerifier"; "identity.jwtSigner"; "identity.simpleCore";
+    "signin/authgate.Gate"; "signin/authgate.Exchange"; "signin/authgate.Challenger"; "roles.Roles" ].
+
+Definition mem_string (x : string) (l : list string) : bool := existsb (String.eqb x) l.
+
+(** Fields whose type is not a configuration type, and methods that write through their receiver. *)
+Definition stateful_fields (fs : list (string * list (string * string))) : list (string * string) :=
+  flat_map (fun o => map (fun f => (fst o, fst f))
+                         (filter (fun f => negb (mem_string (snd f) config_types)) (snd o))) fs.
+
+Definition writing_methods (ws : list (string * list string)) : list string :=
+  map fst (filter (fun m => match snd m with [] => false | _ => negb (mem_string (fst m) config_setters) end) ws).
+
+Definition objects_stateless (fs : list (string * list (string * string))) (ws : list (string * list string)) : Prop :=
+  map fst fs = expected_objects /\ stateful_fields fs = [] /\ writing_methods ws = [] /\
+  (List.length expected_objects <= List.length ws)%nat.
+
+Lemma gen_objects_stateless : objects_stateless gen_object_fields gen_receiver_writes.
+Proof. unfold objects_stateless. vm_compute. repeat split. repeat constructor. Qed.
+
+(** The predicate does notice a cache: a hash state kept in the Signer, or a
+    verifier remembering keys, is reported. *)
+Example objects_stateless_notices_a_cache :
+  stateful_fields [("signer.Signer", [("key", "[]byte"); ("m", "hash.Hash")])] = [("signer.Signer", "m")] /\
+  writing_methods [("identity.jwtVerifier.Verify", ["v.cache[h.KeyID] = k"])] = ["identity.jwtVerifier.Verify"].
+Proof. vm_compute. split; reflexivity. Qed.
